@@ -22,9 +22,9 @@ type OpC11 struct {
 }
 
 type CaseC11 struct {
-	Map map[string]interface{} `json:"map"`
-	Ops []OpC11                `json:"ops"`
-	Unrelated uint16           `json:"unrelated_opts,omitempty"`
+	Map       map[string]interface{} `json:"map"`
+	Ops       []OpC11                `json:"ops"`
+	Unrelated uint16                 `json:"unrelated_opts,omitempty"`
 }
 
 func init() { register("C11", checkC11) }
